@@ -12,12 +12,17 @@ Rules (on all eight point-type instantiations, both estimate_ overloads, all fou
       estimate_ on the underlying sets; the raw overloads return estimate_ unchanged
   V5  the two estimate_ overloads agree statement by statement after normalising how a pair is fetched
   V6  all eight point types are explicitly instantiated
+  V7  preconditioned set (the input of the preconditioned find overloads, re-used across calls by its owners): after compute(points, ..)
+      the stored set has exactly points.size() elements on every path of allocate_() - whatever size an earlier, larger cloud left behind -
+      and every compute overload either delegates or calls allocate_(points.size()) before a loop that writes every index 0..points.size()
 Not decided: least-squares optimality numerics, 1e-9 recovery, order independence to rounding."""
 from ..tree import sx, walk, pp, strip_casts, const_value, short_fn
 from .C20 import m, deep_unwrap
+import sympy as sp
+from .. import sym
 
 LEVEL = 'other'
-UNITS = ['src/transform/estimation/FindRigidTransformationBySVD.cpp']
+UNITS = ['src/transform/estimation/FindRigidTransformationBySVD.cpp', 'src/pointset/algorithms/PreconditionedPointSet.cpp']
 ENGINES = 'E-STATE + E-SIB + E-WIT over romea-facts'
 TECHNIQUE = 'def-use / must-pass-through on the instantiated AST (determinant correction reaches the stored rotation), structural pairing of covariance orientation with SVD factor order, sibling agreement of overloads'
 EXPLANATION = ('Each estimate_/find overload of each of the eight instantiations is read as an ordered list of normalised statements; rules check the determinant '
@@ -59,6 +64,88 @@ def events(f):
             go(s.get('b'), depth + 1, guards)
     go(f['body'], 0, [])
     return out
+
+
+def loop_map(f):
+    """id(statement node) -> descriptor of the innermost enclosing loop: ('for', var, sx init, sx cond, sx inc, {other init vars}) / ('range', var, sx range)."""
+    out = {}
+
+    def go(s, cur):
+        if s is None:
+            return
+        k = s['k']
+        if k == 'Compound':
+            for x in s['s']:
+                go(x, cur)
+        elif k in ('Decl', 'Expr', 'Return'):
+            out[id(s)] = cur
+            if k == 'Decl':
+                for v in s['vars']:
+                    out[id(v)] = cur
+        elif k == 'If':
+            go(s.get('t'), cur)
+            go(s.get('e'), cur)
+        elif k == 'For':
+            init = s.get('init')
+            d = None
+            if init is not None and init['k'] == 'Decl' and init['vars']:
+                v0 = init['vars'][0]
+                others = {v['name']: deep_unwrap(sx(v['init'])) for v in init['vars'][1:] if v.get('init') is not None}
+                d = ('for', v0['name'], deep_unwrap(sx(v0['init'])) if v0.get('init') is not None else None, deep_unwrap(sx(s['c'])) if s.get('c') else None,
+                     deep_unwrap(sx(s['inc'])) if s.get('inc') else None, others)
+            go(s.get('b'), d or ('?',))
+        elif k == 'RangeFor':
+            go(s.get('b'), ('range', s['var']['name'], deep_unwrap(sx(s['range']))))
+        elif k in ('While', 'Do'):
+            go(s.get('b'), ('?',))
+    go(f['body'], None)
+    return out
+
+
+def full_index_loop(lp, listname):
+    """the loop variable if lp runs an index over all of `listname` (0 .. size, ++)"""
+    if lp is None or lp[0] != 'for':
+        return None
+    _, var, init, cond, inc, others = lp
+    size = ('.size', listname)
+    bound_ok = isinstance(cond, tuple) and cond[0] == '<' and cond[1] == var and (cond[2] == size or others.get(cond[2]) == size)
+    if init == 0 and bound_ok and inc in (('u++', var), ('++u', var), ('++', var)):
+        return var
+    return None
+
+
+def canonical_access(ev, i, acc, loops, listname='correspondences'):
+    """acc = ('[]', set, index) at event i  ->  (set, role) with role 'S' (source index of the current correspondence), 'T' (target index),
+    'N' (the loop counter itself), '?' (not resolved).  Locals are resolved to the nearest preceding declaration."""
+    if not (isinstance(acc, tuple) and len(acc) == 3 and acc[0] == '[]' and isinstance(acc[1], str)):
+        return (None, '?')
+    lp = loops.get(id(ev[i][2]))
+
+    def local_def(name):
+        for j in range(i - 1, -1, -1):
+            if ev[j][0] == 'decl' and ev[j][1][0] == name:
+                return ev[j][1][1]
+        return None
+    idx = acc[2]
+    for _ in range(3):
+        if isinstance(idx, str) and local_def(idx) is not None:
+            idx = local_def(idx)
+    role = '?'
+    n = full_index_loop(lp, listname)
+    if n is not None:
+        if idx == n:
+            role = 'N'
+        elif idx == ('.member:sourcePointIndex', ('[]', listname, n)):
+            role = 'S'
+        elif idx == ('.member:targetPointIndex', ('[]', listname, n)):
+            role = 'T'
+    elif lp is not None and lp[0] == 'range' and lp[2] == listname:
+        v = lp[1]
+        if idx in (v + '.sourcePointIndex', ('.member:sourcePointIndex', v)):
+            role = 'S'
+        elif idx in (v + '.targetPointIndex', ('.member:targetPointIndex', v)):
+            role = 'T'
+    return (acc[1], role)
 
 
 def contains(s, needle):
@@ -107,6 +194,7 @@ def run(fx, R, tier):
                     'the two estimate_ overloads differ after the covariance loop: %s vs %s' % (first_diff(tails[0], tails[1])),
                     'identical SVD / correction / rotation / translation statements', fx.rel(ests[0]['loc']), 'E-SIB')
         check_find(fx, R, cq, cname)
+    check_preconditioned_set(fx, R)
 
 
 def first_diff(a, b):
@@ -205,36 +293,55 @@ def check_estimate(fx, R, cname, f, tag):
     R.check(okt, 'V2', inst + ':translation', 'translation column is not targetMean - R*sourceMean computed after the rotation is stored: %s' % ([t[1] for t in tr],),
             't = targetMean - R*sourceMean', fx.rel(tr[0][2]['loc']) if tr else fx.rel(f['loc']), 'E-ALG')
     # means
+    loops = loop_map(f)
     if tag == 'indexed':
-        want = {('+=', 'sourceMean', ('[]', 'sourcePoints', 'sourceIndex')), ('+=', 'targetMean', ('[]', 'targetPoints', 'targetIndex')),
-                ('/=', 'sourceMean', ('.size', 'correspondences')), ('/=', 'targetMean', ('.size', 'correspondences'))}
-        have = {e[1] for e in ev if e[0] == 'expr'}
-        idx = {('sourceIndex', ('.member:sourcePointIndex', ('[]', 'correspondences', 'n'))), ('targetIndex', ('.member:targetPointIndex', ('[]', 'correspondences', 'n')))}
-        haved = {e[1] for e in ev if e[0] == 'decl'}
-        if want <= have and idx <= haved:
+        accs = [(i, e[1][1], canonical_access(ev, i, e[1][2], loops)) for i, e in enumerate(ev) if e[0] == 'expr' and isinstance(e[1], tuple) and len(e[1]) == 3 and e[1][0] == '+='
+                and e[1][1] in ('sourceMean', 'targetMean')]
+        divs = {e[1][1]: e[1][2] for e in ev if e[0] == 'expr' and isinstance(e[1], tuple) and len(e[1]) == 3 and e[1][0] == '/=' and e[1][1] in ('sourceMean', 'targetMean')}
+        expected = {'sourceMean': ('sourcePoints', 'S'), 'targetMean': ('targetPoints', 'T')}
+        wrong = [(mn, ca) for (_, mn, ca) in accs if ca[0] in ('sourcePoints', 'targetPoints') and ca[1] in ('S', 'T', 'N') and ca != expected[mn]]
+        names_acc = sorted(mn for (_, mn, _) in accs)
+        if wrong:
+            roles = {'S': 'the source index of the current correspondence', 'T': 'the target index of the current correspondence', 'N': 'the position in the list (not an index of the correspondence)'}
+            R.violated('V2', inst + ':means', '%s accumulates %s[%s]; the centroid of the corresponded %s points needs %s[%s] - with a subset or permuted correspondence list the '
+                       'translation targetMean - R*sourceMean is then that of other points' % (
+                           wrong[0][0], wrong[0][1][0], roles[wrong[0][1][1]], wrong[0][0][:6], expected[wrong[0][0]][0], roles[expected[wrong[0][0]][1]]), fx.rel(f['loc']), 'E-SIB')
+        elif names_acc == ['sourceMean', 'targetMean'] and all(ca == expected[mn] for (_, mn, ca) in accs) and \
+                all(divs.get(k) in (('.size', 'correspondences'),) for k in ('sourceMean', 'targetMean')):
             R.holds('V2', inst + ':means', 'means over the correspondence list, roles not swapped', fx.rel(f['loc']), 'E-SIB')
         else:
-            swapped = {('+=', 'sourceMean', ('[]', 'sourcePoints', 'targetIndex')), ('+=', 'targetMean', ('[]', 'targetPoints', 'sourceIndex')),
-                       ('+=', 'sourceMean', ('[]', 'targetPoints', 'targetIndex')), ('+=', 'targetMean', ('[]', 'sourcePoints', 'sourceIndex'))} & have
-            if swapped:
-                R.violated('V2', inst + ':means', 'a mean is accumulated from the wrong set / index: %s' % (sorted(map(str, swapped)),), fx.rel(f['loc']), 'E-SIB')
+            verdict = one_pass_invariant(fx, f)
+            if verdict is None:
+                R.undecided('V2', inst + ':means', 'mean/covariance accumulation idiom not recognised (two-pass sums over the correspondence list expected): accumulations %s, divisions %s' % (
+                    [(mn, ca) for (_, mn, ca) in accs], divs))
+            elif verdict[0]:
+                R.holds('V2', inst + ':means', 'one-pass recurrence preserves mean = S/n and cov = S_xy - S_x S_y / n (loop invariant, exact algebra)', fx.rel(f['loc']), 'E-ALG')
             else:
-                verdict = one_pass_invariant(fx, f)
-                if verdict is None:
-                    R.undecided('V2', inst + ':means', 'mean/covariance accumulation idiom not recognised (two-pass sums expected); missing %s' % (sorted(map(str, (want - have) | (idx - haved)))[:2],))
-                elif verdict[0]:
-                    R.holds('V2', inst + ':means', 'one-pass recurrence preserves mean = S/n and cov = S_xy - S_x S_y / n (loop invariant, exact algebra)', fx.rel(f['loc']), 'E-ALG')
-                else:
-                    R.violated('V2', inst + ':one-pass-recurrence', 'the one-pass mean/covariance recurrence does not preserve the invariant cov_n = S_xy - S_x S_y / n: after one step %s is off by %s '
-                               '(scalar abstraction of the outer product; n items before the step)%s' % (verdict[1], verdict[2], ptag), fx.rel(f['loc']), 'E-ALG')
-        pair_ok = (cb['$P1'], cb['$P2']) in ((('[]', 'sourcePoints', 'sourceIndex'), ('[]', 'targetPoints', 'targetIndex')), (('[]', 'targetPoints', 'targetIndex'), ('[]', 'sourcePoints', 'sourceIndex')))
+                R.violated('V2', inst + ':one-pass-recurrence', 'the one-pass mean/covariance recurrence does not preserve the invariant cov_n = S_xy - S_x S_y / n: after one step %s is off by %s '
+                           '(scalar abstraction of the outer product; n items before the step)%s' % (verdict[1], verdict[2], ptag), fx.rel(f['loc']), 'E-ALG')
+        ci = covs[0][0]
+        c1, c2 = canonical_access(ev, ci, cb['$P1'], loops), canonical_access(ev, ci, cb['$P2'], loops)
+        good = {('sourcePoints', 'S'), ('targetPoints', 'T')}
+        pair_ok = {c1, c2} == good
+        pair_known = all(c[0] in ('sourcePoints', 'targetPoints') and c[1] in ('S', 'T', 'N') for c in (c1, c2))
     else:
         sm, tm = decls.get('sourceMean'), decls.get('targetMean')
         okm = sm is not None and tm is not None and isinstance(sm[1], tuple) and sm[1][0] == 'mean' and sm[1][1:] == ('sourcePoints',) \
             and isinstance(tm[1], tuple) and tm[1][0] == 'mean' and tm[1][1:] == ('targetPoints',)
         R.check(okm, 'V2', inst + ':means', 'means are not mean(sourcePoints)/mean(targetPoints): %s %s' % (sm, tm), 'means of the two sets', fx.rel(f['loc']), 'E-SIB')
-        pair_ok = (cb['$P1'], cb['$P2']) in ((('[]', 'sourcePoints', 'n'), ('[]', 'targetPoints', 'n')), (('[]', 'targetPoints', 'n'), ('[]', 'sourcePoints', 'n')))
-    R.check(pair_ok, 'V3', inst + ':pairs', 'covariance pairs %s with %s: not the corresponded pair' % (cb['$P1'], cb['$P2']), 'pairs the corresponded points', fx.rel(covs[0][1][2]['loc']), 'E-SIB')
+        ci = covs[0][0]
+        lpc = loops.get(id(ev[ci][2]))
+        nvar = full_index_loop(lpc, 'sourcePoints') or full_index_loop(lpc, 'targetPoints')
+        acc_sets = {cb['$P1'][1] if isinstance(cb['$P1'], tuple) and len(cb['$P1']) == 3 else None, cb['$P2'][1] if isinstance(cb['$P2'], tuple) and len(cb['$P2']) == 3 else None}
+        same_n = nvar is not None and all(isinstance(p, tuple) and len(p) == 3 and p[0] == '[]' and p[2] == nvar for p in (cb['$P1'], cb['$P2']))
+        pair_ok = same_n and acc_sets == {'sourcePoints', 'targetPoints'}
+        pair_known = same_n and acc_sets <= {'sourcePoints', 'targetPoints'}
+    if pair_ok:
+        R.holds('V3', inst + ':pairs', 'pairs the corresponded points', fx.rel(covs[0][1][2]['loc']), 'E-SIB')
+    elif pair_known:
+        R.violated('V3', inst + ':pairs', 'covariance pairs %s with %s: not the corresponded pair' % (cb['$P1'], cb['$P2']), fx.rel(covs[0][1][2]['loc']), 'E-SIB')
+    else:
+        R.undecided('V3', inst + ':pairs', 'how the covariance fetches its pair is not resolved: %s with %s' % (cb['$P1'], cb['$P2']))
     # the returned matrix is H
     rets = [e for e in ev if e[0] == 'return']
     R.check(len(rets) == 1 and rets[0][1] == H, 'V2', inst + ':return', 'does not return the assembled matrix', 'returns H', fx.rel(f['loc']), 'E-SIB')
@@ -450,3 +557,90 @@ def check_find(fx, R, cq, cname):
             got = [(e[0], e[1]) for e in ev]
             R.check(got == want, 'V4', inst, 'preconditioned overload does not divide exactly the translation block by the target scale after estimate_(source.get(), target.get()%s): %s' % (
                 ', correspondences' if withc else '', got), 'translation block /= target scale', fx.rel(f['loc']), 'E-SIB')
+
+
+def check_preconditioned_set(fx, R):
+    classes = sorted(q for q in fx.records if q.startswith('romea::core::PreconditionedPointSet<'))
+    if len(classes) != 8:
+        R.undecided('V7', 'PreconditionedPointSet', '%d instantiations found (8 expected)' % len(classes))
+    for cq in classes:
+        cname = short_fn(cq)
+        fa = fx.one(cq + '::allocate_')
+        comps = fx.fn(cq + '::compute')
+        if fa is None or len(comps) != 3:
+            R.undecided('V7', cname, 'anchor vanished (allocate_ / three compute overloads)')
+            continue
+        R.used(fa, *comps)
+        # ---- size after allocate_ on every path, for every earlier size -------------------------------------------
+        inst = '%s::allocate_:size' % cname
+        try:
+            paths = sym.Reader(fx).run(fa)
+        except sym.Unsupported as e:
+            R.undecided('V7', inst, 'not interpretable: %s' % e)
+            paths = None
+        if paths is not None:
+            n = sp.Symbol('arg:' + fa['params'][0]['name'], integer=True)
+            size0 = sp.Symbol('size(this.points_)', integer=True, nonnegative=True)
+            bad, unknown, exact = None, False, True
+            for st in paths:
+                c = st.fields.get(('this', 'points_'))
+                final = c.size() if isinstance(c, sym.Cont) else size0
+                if sp.simplify(final - n) != 0:
+                    exact = False
+                caps = [a for cnd in st.cond if isinstance(cnd[1], sp.Basic) for a in cnd[1].free_symbols if str(a).startswith('capacity(')]
+                for (s0, nn) in ((10, 3), (3, 10), (0, 0), (5, 5), (0, 4), (4, 0)):
+                    for extra in (0, 6):
+                        env = {size0: s0, n: nn}
+                        env.update({a: s0 + extra for a in caps})
+                        ok = True
+                        for cnd in st.cond:
+                            if cnd[0] in ('True', 'False') or not isinstance(cnd[1], sp.Basic):
+                                continue
+                            v = cnd[1].subs(env)
+                            if v not in (sp.true, sp.false):
+                                ok = None
+                                break
+                            if bool(v) != cnd[2]:
+                                ok = False
+                                break
+                        if ok is None:
+                            unknown = True
+                        elif ok and sp.simplify(final.subs(env) - nn) != 0 and bad is None:
+                            bad = (s0, nn, final.subs(env))
+            if bad:
+                R.violated('V7', inst, 'after a cloud of %d points, compute() with %d points leaves %s elements in the set: get().size() and the tail still describe the earlier cloud, and the '
+                           'estimator overload without a correspondence list registers the stale tail' % bad, fx.rel(fa['loc']), 'E-STATE')
+            elif exact and not unknown:
+                R.holds('V7', inst, 'points_.size() == numberOfPoints on every path (any earlier size / capacity)', fx.rel(fa['loc']), 'E-STATE')
+            else:
+                R.undecided('V7', inst, 'size after allocate_ not decided on every path')
+        # ---- compute overloads ----------------------------------------------------------------------------------------
+        for g in comps:
+            ev = events(g)
+            loops = loop_map(g)
+            tag = '%s::compute/%d' % (cname, len(g['params']))
+            pname = g['params'][0]['name']
+            calls = [e for e in ev if e[0] == 'expr' and isinstance(e[1], tuple) and e[1][0] in ('.compute', '.allocate_') and e[1][1] == 'this']
+            stores = [(i, e) for i, e in enumerate(ev) if e[0] == 'expr' and contains(e[1], 'this.points_') and isinstance(e[1], tuple) and e[1][0] in ('=', '+=', '*=')]
+            if not stores and len(calls) == 1 and calls[0][1][0] == '.compute' and calls[0][1][2] == pname:
+                R.holds('V7', tag, 'delegates to a sibling overload with the same point set', fx.rel(g['loc']), 'E-SIB')
+                continue
+            decls = {e[1][0]: e[1][1] for e in ev if e[0] == 'decl'}
+            size = ('.size', pname)
+            al = [i for i, e in enumerate(ev) if e[0] == 'expr' and isinstance(e[1], tuple) and e[1][:2] == ('.allocate_', 'this')]
+            arg_ok = len(al) == 1 and (ev[al[0]][1][2] == size or decls.get(ev[al[0]][1][2]) == size) and not ev[al[0]][3]
+            if len(stores) == 1 and arg_ok and al[0] < stores[0][0]:
+                lp = loops.get(id(stores[0][1][2]))
+                cover = False
+                if lp is not None and lp[0] == 'for':
+                    _, var, init, cond, inc, others = lp
+                    bound = cond[2] if isinstance(cond, tuple) and len(cond) == 3 else None
+                    cover = init == 0 and isinstance(cond, tuple) and cond[0] == '<' and cond[1] == var and (bound == size or decls.get(bound) == size or others.get(bound) == size) \
+                        and inc in (('u++', var), ('++u', var)) and contains(stores[0][1][1][1], ('[]', 'this.points_', var)) and contains(stores[0][1][1][2], ('[]', pname, var))
+                if cover:
+                    R.holds('V7', tag, 'allocate_(points.size()) precedes a loop writing points_[n] from points[n] for every n in [0, points.size())', fx.rel(g['loc']), 'E-STATE')
+                    continue
+            if not al and stores:
+                R.violated('V7', tag, 'this overload writes points_ without calling allocate_(): the set keeps the size of the previous cloud', fx.rel(g['loc']), 'E-STATE')
+            else:
+                R.undecided('V7', tag, 'allocation / fill idiom not recognised: calls %s, stores %s' % ([c[1] for c in calls], [s_[1][1] for s_ in stores][:2]))
